@@ -291,11 +291,11 @@ func (c *CVMContract) execute(st engine.State, params engine.CallParams) ([]byte
 			c.debugf(" !%v = %v\n", x, z)
 
 		case BYTE: // 0x1A
-			idx := stack.Pop64()
+			idx := stack.PopBigInt()
 			val := stack.Pop()
 			res := byte(0)
-			if idx < 32 {
-				res = val[idx]
+			if idx.IsUint64() && idx.Uint64() < 32 {
+				res = val[idx.Uint64()]
 			}
 			stack.Push64(uint64(res))
 			c.debugf(" => 0x%X\n", res)
